@@ -23,7 +23,7 @@ HARNESSES = [
      "timeout": {"quick": 120, "thorough": 400}},
     {"fn": "h_src", "cases": ["w6", "w7", "w8", "ref"], "quick_cases": ["w6", "ref"], "timeout": {"quick": 120, "thorough": 600}},
     {"fn": "h_siglist", "cases": ["count"], "timeout": {"quick": 120, "thorough": 400}},
-    {"fn": "h_regdump", "cases": ["size", "inst", "id", "twochips"], "quick_cases": ["size", "inst"], "timeout": {"quick": 120, "thorough": 400}},
+    {"fn": "h_regdump", "cases": ["size", "inst", "id", "twochips", "sameid"], "quick_cases": ["size", "inst", "sameid"], "timeout": {"quick": 120, "thorough": 400}},
     {"fn": "h_scratch", "cases": ["regs:v", "regs:k0", "regs:k8", "regs:k15", "sig", "ffdc", "other"], "quick_cases": ["regs:v", "regs:k8", "sig", "ffdc", "other"],
      "timeout": {"quick": 120, "thorough": 400}},
 ]
@@ -236,6 +236,10 @@ def h_regdump() -> bool:
         if size == cand:
             sz = cand
     regs1 = [([0xA1, 0xB2, idb], inst, payload[:sz]), ([0x00, 0x00, 0x01], 0, [0x11, 0x22])]
+    if CASE == "sameid":
+        # the same register id twice on one chip, with different instances
+        i2 = sym_int("inst2", 0, 255)
+        regs1 = [([0xA1, 0xB2, 0xC3], 0, [0x01]), ([0xA1, 0xB2, 0xC3], i2, [0x02]), ([0x77, 0x88, 0x99], 5, [0x03]), ([0x77, 0x88, 0x99], i2, [0x04])]
     chips = [(model, 0x0007, 0x03, regs1)]
     if CASE == "twochips":
         x = sym_int("x", 0, 255)
